@@ -42,7 +42,7 @@ impl Driver {
                 match successor.type_().clone() {
                     SuccessorType::FallThrough => {
                         let locations = location.forward()?;
-                        if locations.len() == 1 {
+                        if locations.len() == 1 && !is_guarded_edge(&locations[0]) {
                             Ok(Driver::new(
                                 self.program.clone(),
                                 locations[0].clone().into(),
@@ -117,7 +117,7 @@ impl Driver {
             }
             il::RefFunctionLocation::EmptyBlock(_) => {
                 let locations = location.forward()?;
-                if locations.len() == 1 {
+                if locations.len() == 1 && !is_guarded_edge(&locations[0]) {
                     return Ok(Driver::new(
                         self.program.clone(),
                         locations[0].clone().into(),
@@ -176,5 +176,14 @@ impl Driver {
     /// Retrieve a mutable reference to the `State` associated with this driver.
     pub fn state_mut(&mut self) -> &mut State {
         &mut self.state
+    }
+}
+
+/// A single successor is taken without further ado unless it is an edge with a
+/// condition, which must hold like the condition of any other edge.
+fn is_guarded_edge(location: &il::RefProgramLocation) -> bool {
+    match *location.function_location() {
+        il::RefFunctionLocation::Edge(edge) => edge.condition().is_some(),
+        _ => false,
     }
 }
